@@ -322,6 +322,13 @@ def gen_cases(tier):
             absolute.append(("",) * k + tail)
     for t in TRAVERSAL[:2]:
         absolute.append((t, t, t, "@ABS:absdecoy", "secret.ics"))
+    # doubly percent-encoded traversal inside ONE segment (decoded once by the front end, a second time by sloppy code)
+    for enc in ("..%252F", "%252e%252e%252f", "..%252f", "%252E%252E%252F"):
+        for n in range(1, 7):
+            for tail in ("newfile.ics", "secret.ics", "sibling%252Fmember.ics"):
+                deep.append(("user", "calendars", "calendar", enc * n + tail))
+                if n <= 3:
+                    deep.append((enc * n + tail,))
     return seqs, trav + absolute, deep
 
 
